@@ -28,17 +28,21 @@ def gen_game(rng, n, style):
     assert n >= 3
     F, S = n - 2, n - 1
     players, tl, frs, rew = [], [], [], []
-    dens = [2, 4, 8] if style == "exact" else [2, 3, 4, 5, 8, 10]
+    dens = [2, 4, 8] if style == "exact" else ([2] if style == "ties" else [2, 3, 4, 5, 8, 10])
     for s in range(n - 2):
-        k = rng.choice([P1, P2, PR, PR] if style != "players" else [P1, P2, P1, PR])
+        k = rng.choice([P1, P2, P1, PR] if style == "players" else ([P1, P2, P2, PR] if style == "ties" else [P1, P2, PR, PR]))
         players.append(k)
         r = rng.choice([0, 0, 1, 2, 3, 5]) if rng.random() < 0.85 else rng.choice([0.5, 5 / 3, 2.25, 10])
         rew.append(r)
         m = rng.choice([1, 2, 2, 3, 3, 4])
+        if style == "ties":
+            # mostly deterministic, forward-only: reach values are 0, 1/2, 1, ... so Player-2/Player-1 states see many
+            # exact reachability ties while rewards differ (exercises the tie handling of strategies and diagnostics)
+            m = (1 if rng.random() < 0.6 else 2) if k == PR else rng.choice([2, 2, 3])
         fwd = list(range(s + 1, n))
         if k == PR:
-            if style in ("stopping", "exact"):
-                ds = [rng.choice(fwd)] + [rng.choice(fwd) if style == "exact" else rng.randrange(0, n)
+            if style in ("stopping", "exact", "ties"):
+                ds = [rng.choice(fwd)] + [rng.choice(fwd) if style in ("exact", "ties") else rng.randrange(0, n)
                                           for _ in range(m - 1)]
                 rng.shuffle(ds)
             else:
@@ -52,7 +56,7 @@ def gen_game(rng, n, style):
             frs.append(ws)
             tl.append([(_fl(w), d) for w, d in zip(ws, ds)])
         else:
-            if style in ("stopping",):
+            if style in ("stopping", "ties"):
                 ds = [rng.choice(fwd) for _ in range(m)]
             elif style == "exact":
                 ds = []
@@ -83,7 +87,7 @@ def gen_game(rng, n, style):
         finals = [extra, F] if rng.random() < 0.5 else [F, extra]
         if rng.random() < 0.3:
             finals.append(F)    # repetition
-    if style not in ("stopping", "exact") and rng.random() < 0.12:
+    if style not in ("stopping", "exact", "ties") and rng.random() < 0.12:
         # the initial state itself is final and not absorbing (legal for the reachability claims; the reward
         # claims C02/C06/C14 quantify over games whose final states are absorbing)
         finals = [0] + finals if rng.random() < 0.5 else finals + [0]
@@ -150,7 +154,7 @@ def zero_rewards(game):
     return g
 
 
-TERMINATING = ("stopping", "exact", "pattern", "corpus")   # styles whose reward loop must terminate
+TERMINATING = ("stopping", "exact", "ties", "pattern", "corpus")   # styles whose reward loop must terminate
 
 def pattern_games3(kmax, tiny=1e-7):
     """like pattern_games, but each successor is dead (0), alive (reaches F surely) or barely alive (reaches F
